@@ -56,8 +56,9 @@ JoinRightNames(ln, rn, ron, rname, usfx) ==
         ELSE IF clash = {} THEN rn
         ELSE IF onlyJoin THEN [i \in DOMAIN rn |-> IF rn[i] \in L THEN rn[i] \o sfx ELSE rn[i]]
         ELSE [i \in DOMAIN rn |-> rn[i] \o sfx]
-CmJoin(ML, MR, ron, rname, usfx) ==
-    [CmSource(ML.names \o JoinRightNames(ML.names, MR.names, ron, rname, usfx)) EXCEPT !.filt = ML.filt]
+CmJoin(ML, MR, ron, rname, usfx, how) ==
+    [CmSource(ML.names \o JoinRightNames(ML.names, MR.names, ron, rname, usfx))
+        EXCEPT !.filt = ML.filt \/ (how = "inner" /\ MR.filt)]      \* an inner join puts the right side's predicates into WHERE (F27)
 CmUnion(ML, MR) == [CmSource(ML.names) EXCEPT !.filt = ML.filt]
 
 =============================================================================
